@@ -117,6 +117,50 @@ def run(ctx):
         obs.case((data, nl), nontrivial=nl in data)
         check(text.split_lines, data, nl, obs)
     obs.count('random_long_strings', n)
+    # pairs of buffers with equal length and identical first / last KB that
+    # differ only in the middle (result caches keyed too cheaply)
+    if ctx.index < 4:
+        for nl in NEWLINES[:4]:
+            head = (b'h' * 50 + nl) * 40
+            tail = (b't' * 50 + nl) * 40
+            for mid_a, mid_b in ((b'a' * 30 + nl + b'b' * 29, b'c' * 59 + nl),
+                                 (nl * 5 + b'z' * 10, b'z' * 10 + nl * 5)):
+                pad = b'm' * (len(mid_a) - len(mid_b)) \
+                    if len(mid_a) > len(mid_b) else b''
+                a = head + mid_a + tail
+                b = head + mid_b + pad + tail
+                if len(a) == len(b):
+                    for _ in range(2):
+                        check(text.split_lines, a, nl, obs)
+                        check(text.split_lines, b, nl, obs)
+                    obs.count('same_ends_pairs_checked')
+    # buffers > 1 MiB whose single line is longer than any I/O block
+    if ctx.index in (4 % ctx.n, 5 % ctx.n):
+        M = 1 << 20
+        for nl in NEWLINES[:2]:
+            big = b'k' * (M + 4321)
+            for data in (big + nl + b'short' + nl, b'first' + nl + big,
+                         big + nl + big + nl):
+                obs.case((len(data), nl, 'huge'), nontrivial=True)
+                check(text.split_lines, data, nl, obs)
+                obs.count('huge_line_buffers_checked')
+    # tokens that appear as literals in the library's own source
+    try:
+        from mon.gen import dictionary
+        toks = dictionary.as_bytes()
+    except Exception:
+        toks = []
+    for k in range(ctx.share(ctx.pick(3000, 60000)) if toks else 0):
+        nl = rng.choice(NEWLINES)
+        parts = []
+        for _ in range(rng.randint(2, 12)):
+            r = rng.random()
+            parts.append(rng.choice(toks) if r < 0.5 else
+                         (nl if r < 0.8 else b'x' * rng.randint(0, 9)))
+        data = b''.join(parts) or b'x'
+        obs.case((data, nl, 'dict'), nontrivial=nl in data)
+        check(text.split_lines, data, nl, obs)
+        obs.count('dictionary_strings')
     # very large buffers, the SAME object split repeatedly in both modes
     # (size thresholds, result caching)
     if ctx.index < 4:
